@@ -158,11 +158,34 @@ Qed.
 
 Definition len (b : bytes) : N := N.of_nat (List.length b).
 Definition E (t : ev) (b e : N) : lexev := mkev t b e false.
-Fixpoint nls (q : N) (w : bytes) : list lexev :=
+(* the events of a gap: a run of blanks, line comments ('#', a body without line break that does not
+   begin with '#', a line break) and block comments ('###' ... '###').  A blank line break delivers NewLine
+   at its offset; the line break that ends a line comment delivers NewLine twice: stateInlineComment finds
+   it at the byte before (it steps back by one byte) and the step the comment interrupted reads the line
+   break again; a block comment delivers nothing.  For a run of blanks this is one NewLine per line break. *)
+Inductive gst := GOut | GHash | GIn | GHash2 | GBlock.
+Fixpoint gev (g : gst) (q : N) (w : bytes) : list lexev :=
   match w with
   | [] => []
-  | c :: r => (if is_nl c then [E NewLine q q] else []) ++ nls (N.succ q) r
+  | c :: r =>
+    let blk :=
+        match r with
+        | x :: y :: r' => if (ch x 35 && ch y 35)%bool then gev GOut (q + 3) r' else gev GBlock (N.succ q) r
+        | _ => []
+        end in
+    match g with
+    | GOut => if ch c 35 then gev GHash (N.succ q) r
+              else (if is_nl c then [E NewLine q q] else []) ++ gev GOut (N.succ q) r
+    | GHash => if ch c 35 then gev GHash2 (N.succ q) r
+               else if is_nl c then [E NewLine (q - 1) (q - 1); E NewLine q q] ++ gev GOut (N.succ q) r
+               else gev GIn (N.succ q) r
+    | GIn => if is_nl c then [E NewLine (q - 1) (q - 1); E NewLine q q] ++ gev GOut (N.succ q) r
+             else gev GIn (N.succ q) r
+    | GHash2 => if ch c 35 then blk else []
+    | GBlock => if ch c 35 then blk else gev GBlock (N.succ q) r
+    end
   end.
+Definition nls (q : N) (w : bytes) : list lexev := gev GOut q w.
 
 Section Ev.
   Variable F : N -> jv -> list lexev.
@@ -199,6 +222,62 @@ Fixpoint events_of (p : N) (v : jv) : list lexev :=
 Definition text_events (w1 : bytes) (v : jv) (w2 : bytes) : list lexev :=
   nls 0 w1 ++ events_of (len w1) v ++ nls (len w1 + len (render v)) w2.
 
+Lemma forallb_ext_in' {A} (f g : A -> bool) l : (forall a, In a l -> f a = g a) -> forallb f l = forallb g l.
+Proof.
+  induction l as [|x l IH]; intros H; [reflexivity|]. cbn [forallb].
+  rewrite (H x (or_introl eq_refl)), IH; [reflexivity|]. intros a Ha. apply H. right. exact Ha.
+Qed.
+(* [Grammar.wf] with a parameter for what may stand in the gaps *)
+Fixpoint wfg (gp : bytes -> bool) (v : jv) : bool :=
+  match v with
+  | JTok t => (is_number_token t || is_string_token t || is_word_token t)%bool
+  | JArr0 w => gp w
+  | JArr items =>
+    (negb (Nat.eqb (length items) 0) &&
+     forallb (fun i => let '(w1, x, w2) := i in (gp w1 && wfg gp x && gp w2)%bool) items)%bool
+  | JObj0 w => gp w
+  | JObj ms =>
+    (negb (Nat.eqb (length ms) 0) &&
+     forallb (fun m => let '(w1, k, w2, w3, x, w4) := m in
+                       (gp w1 && is_string_token k && gp w2 && gp w3 && wfg gp x && gp w4)%bool) ms)%bool
+  end.
+Definition witemg (gp : bytes -> bool) (i : bytes * jv * bytes) : bool :=
+  let '(w1, x, w2) := i in (gp w1 && wfg gp x && gp w2)%bool.
+Definition wmemg (gp : bytes -> bool) (m : bytes * bytes * bytes * bytes * jv * bytes) : bool :=
+  let '(w1, k, w2, w3, x, w4) := m in
+  (gp w1 && is_string_token k && gp w2 && gp w3 && wfg gp x && gp w4)%bool.
+Lemma wfg_arr gp items :
+  wfg gp (JArr items) = (negb (Nat.eqb (length items) 0) && forallb (witemg gp) items)%bool.
+Proof. reflexivity. Qed.
+Lemma wfg_obj gp ms :
+  wfg gp (JObj ms) = (negb (Nat.eqb (length ms) 0) && forallb (wmemg gp) ms)%bool.
+Proof. reflexivity. Qed.
+Lemma wfg_blank : forall v, wfg all_blank v = Grammar.wf v.
+Proof.
+  induction v as [t|w|items IH|w|ms IH] using jv_ind2; try reflexivity.
+  - rewrite wfg_arr, wf_arr. f_equal. apply forallb_ext_in'. intros [[w1 x] w2] Hin.
+    rewrite Forall_forall in IH. specialize (IH _ Hin). cbn in IH |- *. rewrite IH. reflexivity.
+  - rewrite wfg_obj, wf_obj. f_equal. apply forallb_ext_in'. intros [[[[[w1 k] w2] w3] x] w4] Hin.
+    rewrite Forall_forall in IH. specialize (IH _ Hin). cbn in IH |- *. rewrite IH. reflexivity.
+Qed.
+Lemma wfg_mono (gp gq : bytes -> bool) : (forall w, gp w = true -> gq w = true) ->
+  forall v, wfg gp v = true -> wfg gq v = true.
+Proof.
+  intros Hpq. induction v as [t|w|items IH|w|ms IH] using jv_ind2; cbn [wfg]; auto.
+  - intros H. apply andb_prop in H. destruct H as [H1 H2]. rewrite H1. cbn [andb].
+    rewrite forallb_forall in H2 |- *. rewrite Forall_forall in IH. intros [[w1 x] w2] Hin.
+    specialize (H2 _ Hin). specialize (IH _ Hin). cbn in H2, IH.
+    apply andb_prop in H2. destruct H2 as [H2 Hb]. apply andb_prop in H2. destruct H2 as [Ha Hx].
+    rewrite (Hpq _ Ha), (IH Hx), (Hpq _ Hb). reflexivity.
+  - intros H. apply andb_prop in H. destruct H as [H1 H2]. rewrite H1. cbn [andb].
+    rewrite forallb_forall in H2 |- *. rewrite Forall_forall in IH. intros [[[[[w1 k] w2] w3] x] w4] Hin.
+    specialize (H2 _ Hin). specialize (IH _ Hin). cbn in H2, IH.
+    repeat match type of H2 with (_ && _)%bool = true => apply andb_prop in H2; destruct H2 as [H2 ?] end.
+    rewrite (Hpq _ H2), (IH ltac:(assumption)). 
+    repeat match goal with H : gp _ = true |- _ => rewrite (Hpq _ H); clear H end.
+    match goal with H : is_string_token k = true |- _ => rewrite H end. reflexivity.
+Qed.
+
 (* ================================================================== *)
 (* A. the schema scanner over [render v]                                *)
 (* ================================================================== *)
@@ -209,9 +288,9 @@ Ltac blia := unfold plainc, is_blank, is_space, is_nl, is_digit, is_digit19, is_
 (* symbolic evaluation: byte tests and offsets stay folded *)
 Ltac ev_run :=
   lazy beta iota zeta delta -[is_nl is_blank is_space ch is_digit is_digit19 is_hex is_ctl is_name bN
-                              N.succ N.sub N.add N.of_nat len app nls rev].
+                              N.succ N.sub N.add N.of_nat len app nls gev rev].
 (* evaluation with a concrete byte: the tests compute *)
-Ltac ev_all := lazy beta iota zeta delta -[N.succ N.sub N.add N.of_nat len app nls rev].
+Ltac ev_all := lazy beta iota zeta delta -[N.succ N.sub N.add N.of_nat len app nls gev rev].
 
 Ltac decide_tests c :=
   repeat match goal with
@@ -341,6 +420,14 @@ Definition wfp (w : wk) (f : st) : Prop :=
   end.
 
 Definition nl1 (q : N) (c : byte) : list lexev := if is_nl c then [E NewLine q q] else [].
+Lemma nls_nil q : nls q [] = [].
+Proof. reflexivity. Qed.
+Lemma nls_cons q c w : ch c 35 = false -> nls q (c :: w) = nl1 q c ++ nls (N.succ q) w.
+Proof. intros H. unfold nls. cbn [gev]. rewrite H. reflexivity. Qed.
+Lemma nls_hash q w : nls q (x23 :: w) = gev GHash (N.succ q) w.
+Proof. reflexivity. Qed.
+Lemma blank_not_hash c : is_blank c = true -> ch c 35 = false.
+Proof. intros H. blia. Qed.
 
 Definition waiting (f : st) : bool :=
   match f with
@@ -392,7 +479,7 @@ Lemma T_blanks fp w : bclosed fp -> forall idx stk n, all_blank w = true ->
 Proof.
   intros Hcl. induction w as [|c w IH]; intros idx stk n Hw.
   - apply Tr_nil. auto.
-  - destruct (all_blank_cons c w Hw) as [Hc Hw']. cbn [nls].
+  - destruct (all_blank_cons c w Hw) as [Hc Hw']. rewrite (nls_cons idx c w (blank_not_hash c Hc)). fold (nl1 idx c).
     change (c :: w) with ([c] ++ w).
     eapply Tr_trans; [| |apply IH; exact Hw'].
     + apply Tr_class. intros f Hf. destruct (Hcl f Hf) as [Hwt Hab].
@@ -469,6 +556,290 @@ Lemma Tr_cons P Q R i c bs e1 e2 e :
 Proof.
   intros H1 H2 ->. change (c :: bs) with ([c] ++ bs). eapply Tr_trans; [exact H1| |exact H2].
   rewrite len_cons, len_nil. lia.
+Qed.
+
+(* ================================================================== *)
+(* A'. line comments in the gaps (property C13, schema half)           *)
+(* ================================================================== *)
+(* the line break that ends a comment: stateInlineComment pops the step, queues NewLine and steps back;
+   the popped step reads the line break again *)
+Lemma run_comment_end s idx pb c r acc s1 s2 stk2 acc2 :
+  (forall k, dispatch c r pb k (s_step s) s = ROk s1) -> s_back s1 = true -> s_finds s1 = [NewLine] ->
+  s_htc s1 = false -> s_rts s <> [] ->
+  (forall k, dispatch c r pb k (s_step s1) (set_back false (set_finds [] s1)) = ROk s2) ->
+  s_back s2 = false -> s_skip s2 = false ->
+  process_finds idx pb (s_htc s2) (s_stk s2) (frev (s_finds s2)) (E NewLine (idx - 1) (idx - 1) :: acc) = (stk2, acc2, true) ->
+  run s idx pb (c :: r) acc = run (set_back false (set_finds [] (set_stk stk2 s2))) (N.succ idx) (Some c) r acc2.
+Proof.
+  intros Hd Hb Hf Hh Hr Hd2 Hb2 Hk2 Hp. cbn [run].
+  destruct (s_rts s) as [|g rts] eqn:Er; [congruence|]. cbn [length read_byte].
+  change call_fuel with 16%nat. rewrite call_S, Hd, Hb, Hf, Hh. cbn [frev rev_append process_finds process_found].
+  assert (Es : set_back false (set_finds [] (set_stk (s_stk s1) s1)) = set_back false (set_finds [] s1))
+    by (destruct s1; reflexivity).
+  rewrite Es. replace (s_step (set_back false (set_finds [] s1))) with (s_step s1) by (destruct s1; reflexivity).
+  unfold E in Hp. rewrite call_S, Hd2, Hb2, Hp. destruct s2; cbn in Hk2 |- *. rewrite Hk2. reflexivity.
+Qed.
+
+Ltac step_back_with ev c :=
+  eapply run_comment_end;
+  [ intros ?k; ev; decide_tests c; ev; try reflexivity
+  | reflexivity | reflexivity | reflexivity | cbn [s_rts]; discriminate
+  | intros ?k; ev; decide_tests c; ev; try reflexivity
+  | reflexivity | reflexivity
+  | ev; reflexivity ].
+
+Lemma T_hash f idx stk n : waiting f = true ->
+  Tr (Cfg (eq f) [] stk n false) idx [x23] [] (Cfg (eq AnyCommentStart) [f] stk n false).
+Proof.
+  intros Hw. apply Tr_one. intros s [f0 [pcs [cx [bnd [al [Hf [Hn ->]]]]]]]. subst f0.
+  destruct f; try discriminate Hw; fin_conc x23.
+Qed.
+Lemma T_cs_body g c idx stk n : ch c 35 = false -> is_nl c = false ->
+  Tr (Cfg (eq AnyCommentStart) [g] stk n false) idx [c] [] (Cfg (eq InlineComment) [g] stk n false).
+Proof. intros H1 H2. one_step c. subst f. fin_step c. Qed.
+Lemma T_c_body g c idx stk n : is_nl c = false ->
+  Tr (Cfg (eq InlineComment) [g] stk n false) idx [c] [] (Cfg (eq InlineComment) [g] stk n false).
+Proof. intros H2. one_step c. subst f. fin_step c. Qed.
+
+Lemma T_c_end h g c idx stk n :
+  h = AnyCommentStart \/ h = InlineComment -> is_nl c = true -> waiting g = true ->
+  Tr (Cfg (eq h) [g] stk n false) idx [c] [E NewLine (idx - 1) (idx - 1); E NewLine idx idx]
+     (Cfg (fun f => f = g \/ f = after_blank g c) [] stk n false).
+Proof.
+  intros Hh Hnl Hw. apply Tr_one_pb. intros s [f0 [pcs [cx [bnd [al [Hf [Hn ->]]]]]]] pb r acc. subst f0.
+  assert (H35 : ch c 35 = false) by blia.
+  unfold after_blank.
+  destruct Hh as [-> | ->]; (destruct g; try discriminate Hw; rewrite ?Hnl;
+    first [ solve [eexists; split; cycle 1; [step_back_with ev_run c|cfg_solve]]
+          | destruct (ch c 10) eqn:E10; [destruct pb as [x|]; [destruct (ch x 13) eqn:E13|]|];
+            solve [eexists; split; cycle 1; [step_back_with ev_run c|cfg_solve]] ]).
+Qed.
+
+(* ---- block comments: ### ... ### ---- *)
+Lemma T_hash2 g idx stk n :
+  Tr (Cfg (eq AnyCommentStart) [g] stk n false) idx [x23] [] (Cfg (eq MultiLineCommentStart) [g] stk n false).
+Proof. one_step x23. subst f. fin_conc x23. Qed.
+
+(* the test of stateMultiLineComment: the byte and the two bytes after it are ### *)
+Definition term3 (c : byte) (l : bytes) : bool :=
+  (ch c 35 && match l with x :: y :: _ => (ch x 35 && ch y 35)%bool | _ => false end)%bool.
+
+Lemma run_step_skip s idx pb c x y r acc s1 :
+  (forall k, dispatch c (x :: y :: r) pb k (s_step s) s = ROk s1) ->
+  s_back s1 = false -> s_skip s1 = true -> s_finds s1 = [] ->
+  run s idx pb (c :: x :: y :: r) acc =
+  run (set_skip false (set_back false (set_finds [] (set_stk (s_stk s1) s1)))) (idx + 3) (Some y) r acc.
+Proof.
+  intros Hd Hb Hk Hf. cbn [run read_byte]. change call_fuel with 16%nat. rewrite call_S, Hd, Hb, Hf.
+  cbn [frev rev_append process_finds]. destruct s1; cbn in Hk |- *. rewrite Hk. reflexivity.
+Qed.
+
+Lemma block_stay_step h g c l stk n idx s :
+  Cfg (eq h) [g] stk n false s ->
+  h = MultiLineComment \/ (h = MultiLineCommentStart /\ ch c 35 = true) -> term3 c l = false ->
+  forall pb acc, exists s', Cfg (eq MultiLineComment) [g] stk n false s' /\
+                            run s idx pb (c :: l) acc = run s' (N.succ idx) (Some c) l acc.
+Proof.
+  intros [f [pcs [cx [bnd [al [Hf [Hn ->]]]]]]] Hh Ht pb acc. subst f. unfold term3 in Ht.
+  destruct l as [|x [|y l']];
+    try (destruct (ch x 35) eqn:Ex; destruct (ch y 35) eqn:Ey);
+    (destruct Hh as [-> |[-> H35]]; [destruct (ch c 35) eqn:H35|rewrite H35 in Ht];
+     cbn [andb] in Ht; try discriminate Ht;
+     (eexists; split; cycle 1; [step_tac c|cfg_solve])).
+Qed.
+
+Lemma block_end_step h g c x y l stk n idx s :
+  Cfg (eq h) [g] stk n false s ->
+  h = MultiLineComment \/ h = MultiLineCommentStart ->
+  ch c 35 = true -> ch x 35 = true -> ch y 35 = true ->
+  forall pb acc, exists s', Cfg (eq g) [] stk n false s' /\
+                            run s idx pb (c :: x :: y :: l) acc = run s' (idx + 3) (Some y) l acc.
+Proof.
+  intros [f [pcs [cx [bnd [al [Hf [Hn ->]]]]]]] Hh H1 H2 H3 pb acc. subst f.
+  destruct Hh as [-> | ->];
+    (eexists; split; cycle 1;
+     [eapply run_step_skip; [intros ?k; ev_run; decide_tests c; ev_run; try reflexivity|reflexivity|reflexivity|reflexivity]
+     |cfg_solve]).
+Qed.
+
+(* the first step may depend on the look-ahead into the bytes that follow *)
+Lemma Tr_step_la (P Q R : sc -> Prop) i c bs e2 :
+  (forall s, P s -> forall pb rest acc, exists s', Q s' /\
+     run s i pb (c :: bs ++ rest) acc = run s' (N.succ i) (Some c) (bs ++ rest) acc) ->
+  Tr Q (N.succ i) bs e2 R -> Tr P i (c :: bs) e2 R.
+Proof.
+  intros H1 H2 s Hs pb rest acc. destruct (H1 s Hs pb rest acc) as [s1 [Hq E1]].
+  destruct (H2 s1 Hq (Some c) rest acc) as [s2 [pb2 [Hr E2]]].
+  exists s2, pb2. split; [exact Hr|]. cbn [app]. rewrite E1, E2, len_cons. f_equal. lia.
+Qed.
+Lemma Tr_step_skip (P Q R : sc -> Prop) i c x y bs e2 :
+  (forall s, P s -> forall pb rest acc, exists s', Q s' /\
+     run s i pb (c :: x :: y :: bs ++ rest) acc = run s' (i + 3) (Some y) (bs ++ rest) acc) ->
+  Tr Q (i + 3) bs e2 R -> Tr P i (c :: x :: y :: bs) e2 R.
+Proof.
+  intros H1 H2 s Hs pb rest acc. destruct (H1 s Hs pb rest acc) as [s1 [Hq E1]].
+  destruct (H2 s1 Hq (Some y) rest acc) as [s2 [pb2 [Hr E2]]].
+  exists s2, pb2. split; [exact Hr|]. cbn [app]. rewrite E1, E2, !len_cons. f_equal. lia.
+Qed.
+
+(* the gap machine: blanks, line comments ('#' body line-break, the body without line break and not
+   beginning with '#') and block comments ('###', then bytes up to the next '###').
+   [fin]: the gap may end inside a line comment (the last gap of the text only); it may never end inside
+   a block comment or after '##' (Err 303 at the last byte) *)
+Fixpoint gap_from (g : gst) (fin : bool) (w : bytes) : bool :=
+  match w with
+  | [] => match g with GOut => true | GHash | GIn => fin | GHash2 | GBlock => false end
+  | c :: r =>
+    let blk :=
+        match r with
+        | x :: y :: r' => if (ch x 35 && ch y 35)%bool then gap_from GOut fin r' else gap_from GBlock fin r
+        | _ => false
+        end in
+    match g with
+    | GOut => if is_blank c then gap_from GOut fin r else if ch c 35 then gap_from GHash fin r else false
+    | GHash => if ch c 35 then gap_from GHash2 fin r
+               else if is_nl c then gap_from GOut fin r else gap_from GIn fin r
+    | GIn => if is_nl c then gap_from GOut fin r else gap_from GIn fin r
+    | GHash2 => if ch c 35 then blk else false
+    | GBlock => if ch c 35 then blk else gap_from GBlock fin r
+    end
+  end.
+Definition is_gap (w : bytes) : bool := gap_from GOut false w.
+Definition is_gap_end (w : bytes) : bool := gap_from GOut true w.
+
+Lemma all_blank_gap fin w : all_blank w = true -> gap_from GOut fin w = true.
+Proof.
+  induction w as [|c w IH]; intros H; [reflexivity|].
+  destruct (all_blank_cons c w H) as [Hc Hw]. cbn [gap_from]. rewrite Hc. apply IH. exact Hw.
+Qed.
+Lemma gap_cons_cases fin c w : gap_from GOut fin (c :: w) = true ->
+  (is_blank c = true /\ ch c 35 = false /\ gap_from GOut fin w = true) \/
+  (c = x23 /\ gap_from GHash fin w = true).
+Proof.
+  cbn [gap_from]. destruct (is_blank c) eqn:Eb.
+  - intros H. left. split; [reflexivity|]. split; [apply blank_not_hash; exact Eb|exact H].
+  - destruct (ch c 35) eqn:Eh; [|discriminate]. intros H. right. split; [|exact H].
+    apply (ch_byte c 35 x23 Eh eq_refl).
+Qed.
+
+(* where the scanner stands after a gap: in the class it started from, or (last gap only) inside a
+   line comment *)
+Definition GQ (fin : bool) (fp : st -> Prop) (stk : list (ev * N)) (n : nat) : sc -> Prop :=
+  fun s => Cfg fp [] stk n false s \/
+           (fin = true /\ exists g, fp g /\ Cfg (fun h => h = AnyCommentStart \/ h = InlineComment) [g] stk n false s).
+
+Definition gap_state (g : gst) : st :=
+  match g with
+  | GOut => FoundRootValue   (* unused *)
+  | GHash => AnyCommentStart | GIn => InlineComment
+  | GHash2 => MultiLineCommentStart | GBlock => MultiLineComment
+  end.
+
+Lemma gaps_nil fin (fp : st -> Prop) stk n idx :
+  (gap_from GOut fin [] = true -> Tr (Cfg fp [] stk n false) idx [] (gev GOut idx []) (GQ fin fp stk n)) /\
+  (forall gs g, gs <> GOut -> fp g -> gap_from gs fin [] = true ->
+     Tr (Cfg (eq (gap_state gs)) [g] stk n false) idx [] (gev gs idx []) (GQ fin fp stk n)).
+Proof.
+  split.
+  - intros _. apply Tr_nil. intros s Hs. left. exact Hs.
+  - intros gs g Hgs Hg Hfin. apply Tr_nil. intros s Hs. right.
+    destruct gs; cbn [gap_from gap_state] in Hfin, Hs; try discriminate Hfin.
+    + exfalso. apply Hgs. reflexivity.
+    + split; [exact Hfin|]. exists g. split; [exact Hg|]. eapply Cfg_sub; [|exact Hs]. intros f <-. left. reflexivity.
+    + split; [exact Hfin|]. exists g. split; [exact Hg|]. eapply Cfg_sub; [|exact Hs]. intros f <-. right. reflexivity.
+Qed.
+
+Lemma T_gaps_gen fin fp stk n : bclosed fp -> forall m w, (length w <= m)%nat -> forall idx,
+  (gap_from GOut fin w = true -> Tr (Cfg fp [] stk n false) idx w (gev GOut idx w) (GQ fin fp stk n)) /\
+  (forall gs g, gs <> GOut -> fp g -> gap_from gs fin w = true ->
+     Tr (Cfg (eq (gap_state gs)) [g] stk n false) idx w (gev gs idx w) (GQ fin fp stk n)).
+Proof.
+  intros Hcl. induction m as [|m IH]; intros w Hm idx.
+  { destruct w; [apply gaps_nil|cbn [length] in Hm; lia]. }
+  destruct w as [|c w]; [apply gaps_nil|].
+  cbn [length] in Hm.
+  assert (I1 : forall i, gap_from GOut fin w = true -> Tr (Cfg fp [] stk n false) i w (gev GOut i w) (GQ fin fp stk n))
+    by (intros i; apply (IH w); lia).
+  assert (I2 : forall i gs g, gs <> GOut -> fp g -> gap_from gs fin w = true ->
+                Tr (Cfg (eq (gap_state gs)) [g] stk n false) i w (gev gs i w) (GQ fin fp stk n))
+    by (intros i; apply (IH w); lia).
+  assert (Hend : forall h g, fp g -> h = AnyCommentStart \/ h = InlineComment -> is_nl c = true ->
+            gap_from GOut fin w = true ->
+            Tr (Cfg (eq h) [g] stk n false) idx (c :: w)
+               ([E NewLine (idx - 1) (idx - 1); E NewLine idx idx] ++ gev GOut (N.succ idx) w) (GQ fin fp stk n)).
+  { intros h g Hg Hh Hnl Hw. destruct (Hcl g Hg) as [Hwt Hab].
+    eapply Tr_cons; [|apply (I1 _ Hw)|reflexivity].
+    eapply Tr_weaken; [apply (T_c_end h g c); assumption|intros ? HH; exact HH|].
+    intros s Hs. eapply Cfg_sub; [|exact Hs]. intros f0 [->| ->]; [exact Hg|apply Hab]. }
+  assert (Hblk : forall h g, fp g -> h = MultiLineComment \/ h = MultiLineCommentStart -> ch c 35 = true ->
+            match w with
+            | x :: y :: r' => if (ch x 35 && ch y 35)%bool then gap_from GOut fin r' else gap_from GBlock fin w
+            | _ => false
+            end = true ->
+            Tr (Cfg (eq h) [g] stk n false) idx (c :: w)
+               match w with
+               | x :: y :: r' => if (ch x 35 && ch y 35)%bool then gev GOut (idx + 3) r' else gev GBlock (N.succ idx) w
+               | _ => []
+               end (GQ fin fp stk n)).
+  { intros h g Hg Hh H35 Hw. destruct w as [|x [|y r']]; try discriminate Hw.
+    destruct (ch x 35 && ch y 35)%bool eqn:Exy.
+    - apply andb_prop in Exy. destruct Exy as [Ex Ey].
+      assert (Hlen : (length r' <= m)%nat) by (cbn [length] in Hm; lia).
+      eapply Tr_step_skip; [|apply (proj1 (IH r' Hlen (idx + 3)%N) Hw)].
+      intros s Hs pb rest acc.
+      destruct (block_end_step h g c x y (r' ++ rest) stk n idx s Hs Hh H35 Ex Ey pb acc) as [s' [Hq E1]].
+      exists s'. split; [|exact E1]. eapply Cfg_sub; [|exact Hq]. intros f <-. exact Hg.
+    - eapply Tr_step_la; [|apply (I2 _ GBlock g); [discriminate|exact Hg|exact Hw]].
+      intros s Hs pb rest acc.
+      apply (block_stay_step h g c ((x :: y :: r') ++ rest) stk n idx s Hs).
+      + destruct Hh as [-> | ->]; [left; reflexivity|right; split; [reflexivity|exact H35]].
+      + unfold term3. cbn [app]. rewrite Exy. apply andb_false_r. }
+  split.
+  - intros H. destruct (gap_cons_cases fin c w H) as [[Hb [Hh Hw]]|[-> Hw]].
+    + cbn [gev]. rewrite Hh. fold (nl1 idx c). eapply Tr_cons; [|apply (I1 _ Hw)|reflexivity].
+      apply Tr_class. intros f Hf. destruct (Hcl f Hf) as [Hwt Hab].
+      eapply Tr_weaken; [apply T_blank1; [exact Hwt|exact Hb]|intros ? HH; exact HH|].
+      intros s Hs. eapply Cfg_sub; [|exact Hs]. intros f0 [->| ->]; [exact Hf|apply Hab].
+    + change (gev GOut idx (x23 :: w)) with (gev GHash (N.succ idx) w).
+      apply Tr_class. intros f Hf. destruct (Hcl f Hf) as [Hwt _].
+      eapply Tr_cons; [apply T_hash; exact Hwt|apply (I2 _ GHash f); [discriminate|exact Hf|exact Hw]|reflexivity].
+  - intros gs g Hgs Hg. destruct gs; [exfalso; apply Hgs; reflexivity| | | |]; cbn [gap_state].
+    + (* after '#' *)
+      cbn [gap_from gev]. destruct (ch c 35) eqn:Eh.
+      * intros Hw. rewrite (ch_byte c 35 x23 Eh eq_refl).
+        eapply Tr_cons; [apply T_hash2|apply (I2 _ GHash2 g); [discriminate|exact Hg|exact Hw]|reflexivity].
+      * destruct (is_nl c) eqn:Enl; intros Hw.
+        -- apply Hend; auto.
+        -- eapply Tr_cons; [apply T_cs_body; assumption|apply (I2 _ GIn g); [discriminate|exact Hg|exact Hw]|reflexivity].
+    + (* inside a line comment *)
+      cbn [gap_from gev]. destruct (is_nl c) eqn:Enl; intros Hw.
+      * apply Hend; auto.
+      * eapply Tr_cons; [apply T_c_body; assumption|apply (I2 _ GIn g); [discriminate|exact Hg|exact Hw]|reflexivity].
+    + (* after '##' *)
+      cbn [gap_from gev]. destruct (ch c 35) eqn:Eh; [|discriminate]. intros Hw. apply Hblk; auto.
+    + (* inside a block comment *)
+      cbn [gap_from gev]. destruct (ch c 35) eqn:Eh; intros Hw.
+      * apply Hblk; auto.
+      * eapply Tr_step_la; [|apply (I2 _ GBlock g); [discriminate|exact Hg|exact Hw]].
+        intros s Hs pb rest acc. apply (block_stay_step MultiLineComment g c (w ++ rest) stk n idx s Hs).
+        -- left. reflexivity.
+        -- unfold term3. rewrite Eh. reflexivity.
+Qed.
+
+Lemma GQ_false fp stk n s : GQ false fp stk n s -> Cfg fp [] stk n false s.
+Proof. intros [H|[H _]]; [exact H|discriminate H]. Qed.
+
+Lemma T_gaps fp w : bclosed fp -> forall idx stk n, is_gap w = true ->
+  Tr (Cfg fp [] stk n false) idx w (nls idx w) (Cfg fp [] stk n false).
+Proof.
+  intros Hcl idx stk n Hw. destruct (T_gaps_gen false fp stk n Hcl (length w) w (le_n _) idx) as [H _].
+  eapply Tr_weaken; [apply (H Hw)|intros ? HH; exact HH|apply GQ_false].
+Qed.
+Lemma T_gaps_hash fp g w : bclosed fp -> fp g -> forall idx stk n, gap_from GHash false w = true ->
+  Tr (Cfg (eq AnyCommentStart) [g] stk n false) idx w (gev GHash idx w) (Cfg fp [] stk n false).
+Proof.
+  intros Hcl Hg idx stk n Hw. destruct (T_gaps_gen false fp stk n Hcl (length w) w (le_n _) idx) as [_ H].
+  eapply Tr_weaken; [apply (H GHash g ltac:(discriminate) Hg Hw)|intros ? HH; exact HH|apply GQ_false].
 Qed.
 
 (* ---- strings ---- *)
@@ -928,122 +1299,175 @@ Proof.
   eapply Tr_cons; [apply T_start_lit; exact Hs|exact Ht|symmetry; apply app_nil_r].
 Qed.
 
-Lemma V_arr0 w : all_blank w = true -> Vprop (JArr0 w).
+Lemma V_arr0 w : is_gap w = true -> Vprop (JArr0 w).
 Proof.
   intros Hw k idx stk n. cbn [render open_events is_tok VDone events_of].
   eapply Tr_ev.
   - eapply Tr_trans; [apply T_start_arr; reflexivity|reflexivity|].
-    eapply Tr_trans; [apply (T_blanks (eq FoundArrayItemBeginOrEmpty) w); [apply bclosed_eq; [reflexivity|discriminate]|exact Hw]
+    eapply Tr_trans; [apply (T_gaps (eq FoundArrayItemBeginOrEmpty) w); [apply bclosed_eq; [reflexivity|discriminate]|exact Hw]
                      |reflexivity|].
     apply T_arr_empty_close; reflexivity.
   - rewrite <- app_assoc. reflexivity.
 Qed.
-Lemma V_obj0 w : all_blank w = true -> Vprop (JObj0 w).
+Lemma V_obj0 w : is_gap w = true -> Vprop (JObj0 w).
 Proof.
   intros Hw k idx stk n. cbn [render open_events is_tok VDone events_of].
   eapply Tr_ev.
   - eapply Tr_trans; [apply T_start_obj; reflexivity|reflexivity|].
-    eapply Tr_trans; [apply (T_blanks (eq FoundObjectKeyBeginOrEmpty) w); [apply bclosed_eq; [reflexivity|discriminate]|exact Hw]
+    eapply Tr_trans; [apply (T_gaps (eq FoundObjectKeyBeginOrEmpty) w); [apply bclosed_eq; [reflexivity|discriminate]|exact Hw]
                      |reflexivity|].
     apply T_obj_empty_close; reflexivity.
   - rewrite <- app_assoc. reflexivity.
 Qed.
 
 (* ---- blanks and the separator after a value ---- *)
-Lemma nls_cons q c w : nls q (c :: w) = nl1 q c ++ nls (N.succ q) w.
-Proof. reflexivity. Qed.
+(* a '#' after a value: the value (and the item / property value / key) ends, a comment begins *)
+Lemma T_item_hash lit p b idx stk n :
+  Tr (VDone lit p ((ArrayItemBegin, b) :: stk) n) idx [x23]
+     (lit_end lit p (idx - 1) ++ [E ArrayItemEnd b (idx - 1)])
+     (Cfg (eq AnyCommentStart) [AfterArrayItem] stk n false).
+Proof.
+  apply Tr_one. intros s Hs. done_cases lit Hs;
+  (eexists; split; cycle 1; [intros pb r acc; step_conc x23|cfg_solve]).
+Qed.
+Lemma T_val_hash lit p b idx stk n :
+  Tr (VDone lit p ((ObjectValueBegin, b) :: stk) n) idx [x23]
+     (lit_end lit p (idx - 1) ++ [E ObjectValueEnd b (idx - 1)])
+     (Cfg (eq AnyCommentStart) [AfterObjectValue] stk n false).
+Proof.
+  apply Tr_one. intros s Hs. done_cases lit Hs;
+  (eexists; split; cycle 1; [intros pb r acc; step_conc x23|cfg_solve]).
+Qed.
+Lemma T_key_hash b idx stk n :
+  Tr (Cfg (eq EndValue) [] ((ObjectKeyBegin, b) :: stk) n false) idx [x23]
+     [E ObjectKeyEnd b (idx - 1)] (Cfg (eq AnyCommentStart) [AfterObjectKey] stk n false).
+Proof. conc_step x23. Qed.
+Lemma T_root_hash lit p idx n :
+  Tr (VDone lit p [] n) idx [x23] (lit_end lit p (idx - 1)) (Cfg (eq AnyCommentStart) [SEndTop] [] n false).
+Proof.
+  apply Tr_one. intros s Hs. done_cases lit Hs;
+  (eexists; split; cycle 1; [intros pb r acc; step_conc x23|cfg_solve]).
+Qed.
 
-Lemma item_tail_comma lit p b w2 sep q2 stk n : all_blank w2 = true -> ch sep 44 = true ->
+(* ---- a gap and the separator after a value ---- *)
+Lemma tail_gap (VD R : sc -> Prop) g stk n (cl evsep : N -> list lexev) sep w2 q2 :
+  waiting g = true -> g <> FoundObjectKeyBegin ->
+  (forall c idx, is_blank c = true -> Tr VD idx [c] (cl (idx - 1) ++ nl1 idx c) (Cfg (eq g) [] stk n false)) ->
+  (forall idx, Tr VD idx [x23] (cl (idx - 1)) (Cfg (eq AnyCommentStart) [g] stk n false)) ->
+  (forall idx, Tr VD idx [sep] (cl (idx - 1) ++ evsep idx) R) ->
+  (forall idx, Tr (Cfg (eq g) [] stk n false) idx [sep] (evsep idx) R) ->
+  is_gap w2 = true ->
+  Tr VD q2 (w2 ++ [sep]) (cl (q2 - 1) ++ nls q2 w2 ++ evsep (q2 + len w2)) R.
+Proof.
+  intros Hw Hne Hb Hh Hs1 Hs2 Hg. destruct w2 as [|c w2'].
+  - cbn [app]. rewrite nls_nil, len_nil, N.add_0_r. apply Hs1.
+  - destruct (gap_cons_cases false c w2' Hg) as [[Hc [H35 Hw']]|[-> Hw']]; cbn [app].
+    + rewrite (nls_cons q2 c w2' H35).
+      eapply Tr_ev.
+      * eapply Tr_cons; [apply Hb; exact Hc| |reflexivity].
+        eapply Tr_trans; [apply (T_gaps (eq g) w2'); [apply bclosed_eq; assumption|exact Hw']|reflexivity|apply Hs2].
+      * rewrite <- !app_assoc. do 3 f_equal. f_equal. len_solve.
+    + rewrite nls_hash.
+      eapply Tr_ev.
+      * eapply Tr_cons; [apply Hh| |reflexivity].
+        eapply Tr_trans; [apply (T_gaps_hash (eq g) g w2'); [apply bclosed_eq; assumption|reflexivity|exact Hw']
+                         |reflexivity|apply Hs2].
+      * do 2 f_equal. f_equal. len_solve.
+Qed.
+
+Lemma item_tail_comma lit p b w2 sep q2 stk n : is_gap w2 = true -> ch sep 44 = true ->
   Tr (VDone lit p ((ArrayItemBegin, b) :: stk) n) q2 (w2 ++ [sep])
      (lit_end lit p (q2 - 1) ++ [E ArrayItemEnd b (q2 - 1)] ++ nls q2 w2) (Cfg (vs_fp VArr) [] stk n false).
 Proof.
-  intros Hw Hs. destruct w2 as [|c w2'].
-  - cbn [app nls]. eapply Tr_ev; [apply T_item_comma; exact Hs|]. ev_fin.
-  - destruct (all_blank_cons c w2' Hw) as [Hc Hw']. cbn [app]. rewrite nls_cons.
-    eapply Tr_ev.
-    + eapply Tr_cons; [apply T_item_blank; exact Hc| |reflexivity].
-      eapply Tr_trans; [apply (T_blanks (eq AfterArrayItem) w2'); [apply bclosed_eq; [reflexivity|discriminate]|exact Hw']
-                       |reflexivity|apply T_after_item_comma; exact Hs].
-    + ev_fin.
+  intros Hw Hs. eapply Tr_ev.
+  - apply (tail_gap _ _ AfterArrayItem stk n (fun e => lit_end lit p e ++ [E ArrayItemEnd b e]) (fun _ => []) sep w2 q2);
+      [reflexivity|discriminate| | | | |exact Hw]; cbv beta.
+    + intros c idx Hc. eapply Tr_ev; [apply T_item_blank; exact Hc|ev_fin].
+    + intros idx. apply T_item_hash.
+    + intros idx. eapply Tr_ev; [apply T_item_comma; exact Hs|ev_fin].
+    + intros idx. apply T_after_item_comma; exact Hs.
+  - cbv beta. ev_fin.
 Qed.
-Lemma item_tail_close lit p b a w2 sep q2 stk n : all_blank w2 = true -> ch sep 93 = true ->
+Lemma item_tail_close lit p b a w2 sep q2 stk n : is_gap w2 = true -> ch sep 93 = true ->
   Tr (VDone lit p ((ArrayItemBegin, b) :: (ArrayBegin, a) :: stk) (S n)) q2 (w2 ++ [sep])
      (lit_end lit p (q2 - 1) ++ [E ArrayItemEnd b (q2 - 1)] ++ nls q2 w2 ++ [E ArrayEnd a (q2 + len w2)])
      (Cfg (eq EndValue) [] stk n false).
 Proof.
-  intros Hw Hs. destruct w2 as [|c w2'].
-  - cbn [app nls]. eapply Tr_ev; [apply T_item_close; exact Hs|]. ev_fin.
-  - destruct (all_blank_cons c w2' Hw) as [Hc Hw']. cbn [app]. rewrite nls_cons.
-    eapply Tr_ev.
-    + eapply Tr_cons; [apply T_item_blank; exact Hc| |reflexivity].
-      eapply Tr_trans; [apply (T_blanks (eq AfterArrayItem) w2'); [apply bclosed_eq; [reflexivity|discriminate]|exact Hw']
-                       |reflexivity|apply T_after_item_close; exact Hs].
-    + ev_fin.
+  intros Hw Hs. eapply Tr_ev.
+  - apply (tail_gap _ _ AfterArrayItem ((ArrayBegin, a) :: stk) (S n)
+             (fun e => lit_end lit p e ++ [E ArrayItemEnd b e]) (fun i => [E ArrayEnd a i]) sep w2 q2);
+      [reflexivity|discriminate| | | | |exact Hw]; cbv beta.
+    + intros c idx Hc. eapply Tr_ev; [apply T_item_blank; exact Hc|ev_fin].
+    + intros idx. apply T_item_hash.
+    + intros idx. eapply Tr_ev; [apply T_item_close; exact Hs|ev_fin].
+    + intros idx. apply T_after_item_close; exact Hs.
+  - cbv beta. ev_fin.
 Qed.
-Lemma val_tail_comma lit p b w2 sep q2 stk n : all_blank w2 = true -> ch sep 44 = true ->
+Lemma val_tail_comma lit p b w2 sep q2 stk n : is_gap w2 = true -> ch sep 44 = true ->
   Tr (VDone lit p ((ObjectValueBegin, b) :: stk) n) q2 (w2 ++ [sep])
      (lit_end lit p (q2 - 1) ++ [E ObjectValueEnd b (q2 - 1)] ++ nls q2 w2) (Cfg (wfp WKey) [] stk n false).
 Proof.
-  intros Hw Hs. destruct w2 as [|c w2'].
-  - cbn [app nls]. eapply Tr_ev; [apply T_val_comma; exact Hs|]. ev_fin.
-  - destruct (all_blank_cons c w2' Hw) as [Hc Hw']. cbn [app]. rewrite nls_cons.
-    eapply Tr_ev.
-    + eapply Tr_cons; [apply T_val_blank; exact Hc| |reflexivity].
-      eapply Tr_trans; [apply (T_blanks (eq AfterObjectValue) w2'); [apply bclosed_eq; [reflexivity|discriminate]|exact Hw']
-                       |reflexivity|apply T_after_val_comma; exact Hs].
-    + ev_fin.
+  intros Hw Hs. eapply Tr_ev.
+  - apply (tail_gap _ _ AfterObjectValue stk n (fun e => lit_end lit p e ++ [E ObjectValueEnd b e]) (fun _ => []) sep w2 q2);
+      [reflexivity|discriminate| | | | |exact Hw]; cbv beta.
+    + intros c idx Hc. eapply Tr_ev; [apply T_val_blank; exact Hc|ev_fin].
+    + intros idx. apply T_val_hash.
+    + intros idx. eapply Tr_ev; [apply T_val_comma; exact Hs|ev_fin].
+    + intros idx. apply T_after_val_comma; exact Hs.
+  - cbv beta. ev_fin.
 Qed.
-Lemma val_tail_close lit p b a w2 sep q2 stk n : all_blank w2 = true -> ch sep 125 = true ->
+Lemma val_tail_close lit p b a w2 sep q2 stk n : is_gap w2 = true -> ch sep 125 = true ->
   Tr (VDone lit p ((ObjectValueBegin, b) :: (ObjectBegin, a) :: stk) (S n)) q2 (w2 ++ [sep])
      (lit_end lit p (q2 - 1) ++ [E ObjectValueEnd b (q2 - 1)] ++ nls q2 w2 ++ [E ObjectEnd a (q2 + len w2)])
      (Cfg (eq EndValue) [] stk n false).
 Proof.
-  intros Hw Hs. destruct w2 as [|c w2'].
-  - cbn [app nls]. eapply Tr_ev; [apply T_val_close; exact Hs|]. ev_fin.
-  - destruct (all_blank_cons c w2' Hw) as [Hc Hw']. cbn [app]. rewrite nls_cons.
-    eapply Tr_ev.
-    + eapply Tr_cons; [apply T_val_blank; exact Hc| |reflexivity].
-      eapply Tr_trans; [apply (T_blanks (eq AfterObjectValue) w2'); [apply bclosed_eq; [reflexivity|discriminate]|exact Hw']
-                       |reflexivity|apply T_after_val_close; exact Hs].
-    + ev_fin.
+  intros Hw Hs. eapply Tr_ev.
+  - apply (tail_gap _ _ AfterObjectValue ((ObjectBegin, a) :: stk) (S n)
+             (fun e => lit_end lit p e ++ [E ObjectValueEnd b e]) (fun i => [E ObjectEnd a i]) sep w2 q2);
+      [reflexivity|discriminate| | | | |exact Hw]; cbv beta.
+    + intros c idx Hc. eapply Tr_ev; [apply T_val_blank; exact Hc|ev_fin].
+    + intros idx. apply T_val_hash.
+    + intros idx. eapply Tr_ev; [apply T_val_close; exact Hs|ev_fin].
+    + intros idx. apply T_after_val_close; exact Hs.
+  - cbv beta. ev_fin.
 Qed.
-Lemma key_tail b w2 sep q2 stk n : all_blank w2 = true -> ch sep 58 = true ->
+Lemma key_tail b w2 sep q2 stk n : is_gap w2 = true -> ch sep 58 = true ->
   Tr (Cfg (eq EndValue) [] ((ObjectKeyBegin, b) :: stk) n false) q2 (w2 ++ [sep])
      ([E ObjectKeyEnd b (q2 - 1)] ++ nls q2 w2) (Cfg (vs_fp VObj) [] stk n false).
 Proof.
-  intros Hw Hs. destruct w2 as [|c w2'].
-  - cbn [app nls]. apply T_key_colon. exact Hs.
-  - destruct (all_blank_cons c w2' Hw) as [Hc Hw']. cbn [app]. rewrite nls_cons.
-    eapply Tr_ev.
-    + eapply Tr_cons; [apply T_key_blank; exact Hc| |reflexivity].
-      eapply Tr_trans; [apply (T_blanks (eq AfterObjectKey) w2'); [apply bclosed_eq; [reflexivity|discriminate]|exact Hw']
-                       |reflexivity|apply T_after_key_colon; exact Hs].
-    + ev_fin.
+  intros Hw Hs. eapply Tr_ev.
+  - apply (tail_gap _ _ AfterObjectKey stk n (fun e => [E ObjectKeyEnd b e]) (fun _ => []) sep w2 q2);
+      [reflexivity|discriminate| | | | |exact Hw]; cbv beta.
+    + intros c idx Hc. apply T_key_blank; exact Hc.
+    + intros idx. apply T_key_hash.
+    + intros idx. eapply Tr_ev; [apply T_key_colon; exact Hs|ev_fin].
+    + intros idx. apply T_after_key_colon; exact Hs.
+  - cbv beta. ev_fin.
 Qed.
 
 (* ---- one array item / one object member, with the byte that follows it ---- *)
 Lemma item_comma w1 x w2 sep q stk n :
-  all_blank w1 = true -> Vprop x -> all_blank w2 = true -> ch sep 44 = true ->
+  is_gap w1 = true -> Vprop x -> is_gap w2 = true -> ch sep 44 = true ->
   Tr (Cfg (vs_fp VArr) [] stk n false) q (ritem (w1, x, w2) ++ [sep])
      (item_events events_of q (w1, x, w2)) (Cfg (vs_fp VArr) [] stk n false).
 Proof.
   intros H1 Hx H2 Hs. cbn [ritem item_events].
   eapply Tr_conv.
-  - eapply Tr_trans; [apply (T_blanks (wfp (WVal VArr)) w1); [apply bclosed_wfp|exact H1]|reflexivity|].
+  - eapply Tr_trans; [apply (T_gaps (wfp (WVal VArr)) w1); [apply bclosed_wfp|exact H1]|reflexivity|].
     eapply Tr_trans; [apply (Hx VArr)|reflexivity|].
     apply item_tail_comma; [exact H2|exact Hs].
   - rewrite <- !app_assoc. reflexivity.
   - cbn [pre_evs pre_stk app]. rewrite <- (open_close (q + len w1) x). ev_fin.
 Qed.
 Lemma item_close w1 x w2 sep q a stk n :
-  all_blank w1 = true -> Vprop x -> all_blank w2 = true -> ch sep 93 = true ->
+  is_gap w1 = true -> Vprop x -> is_gap w2 = true -> ch sep 93 = true ->
   Tr (Cfg (vs_fp VArr) [] ((ArrayBegin, a) :: stk) (S n) false) q (ritem (w1, x, w2) ++ [sep])
      (item_events events_of q (w1, x, w2) ++ [E ArrayEnd a (q + len (ritem (w1, x, w2)))])
      (Cfg (eq EndValue) [] stk n false).
 Proof.
   intros H1 Hx H2 Hs. cbn [ritem item_events].
   eapply Tr_conv.
-  - eapply Tr_trans; [apply (T_blanks (wfp (WVal VArr)) w1); [apply bclosed_wfp|exact H1]|reflexivity|].
+  - eapply Tr_trans; [apply (T_gaps (wfp (WVal VArr)) w1); [apply bclosed_wfp|exact H1]|reflexivity|].
     eapply Tr_trans; [apply (Hx VArr)|reflexivity|].
     apply item_tail_close; [exact H2|exact Hs].
   - rewrite <- !app_assoc. reflexivity.
@@ -1051,11 +1475,11 @@ Proof.
 Qed.
 
 Definition item_ok (i : bytes * jv * bytes) : Prop :=
-  let '(w1, x, w2) := i in all_blank w1 = true /\ Vprop x /\ all_blank w2 = true.
+  let '(w1, x, w2) := i in is_gap w1 = true /\ Vprop x /\ is_gap w2 = true.
 Definition mem_ok (m : bytes * bytes * bytes * bytes * jv * bytes) : Prop :=
   let '(w1, k, w2, w3, x, w4) := m in
-  all_blank w1 = true /\ is_string_token k = true /\ all_blank w2 = true /\ all_blank w3 = true /\
-  Vprop x /\ all_blank w4 = true.
+  is_gap w1 = true /\ is_string_token k = true /\ is_gap w2 = true /\ is_gap w3 = true /\
+  Vprop x /\ is_gap w4 = true.
 
 Lemma items_run : forall items, items <> [] -> Forall item_ok items -> forall q a stk n,
   Tr (Cfg (vs_fp VArr) [] ((ArrayBegin, a) :: stk) (S n) false) q
@@ -1091,7 +1515,7 @@ Qed.
 
 Lemma mem_head w w1 k w2 w3 x q stk n :
   w = WKeyOrEmpty \/ w = WKey ->
-  all_blank w1 = true -> is_string_token k = true -> all_blank w2 = true -> all_blank w3 = true -> Vprop x ->
+  is_gap w1 = true -> is_string_token k = true -> is_gap w2 = true -> is_gap w3 = true -> Vprop x ->
   let q1 := q + len w1 in let q2 := q1 + len k in let q3 := q2 + len w2 + 1 in let q4 := q3 + len w3 in
   Tr (Cfg (wfp w) [] stk n false) q (w1 ++ k ++ w2 ++ [x3a] ++ w3 ++ render x)
      (nls q w1 ++ [E ObjectKeyBegin q1 q1; E ObjectKeyEnd q1 (q2 - 1)] ++ nls q2 w2 ++ nls q3 w3 ++
@@ -1100,10 +1524,10 @@ Lemma mem_head w w1 k w2 w3 x q stk n :
 Proof.
   intros Hw H1 Hk H2 H3 Hx q1 q2 q3 q4.
   eapply Tr_conv.
-  - eapply Tr_trans; [apply (T_blanks (wfp w) w1); [apply bclosed_wfp|exact H1]|reflexivity|].
+  - eapply Tr_trans; [apply (T_gaps (wfp w) w1); [apply bclosed_wfp|exact H1]|reflexivity|].
     eapply Tr_trans; [apply (key_run w k); [exact Hw|exact Hk]|reflexivity|].
     eapply Tr_trans with (j := q3); [apply (key_tail _ w2 x3a); [exact H2|reflexivity]|subst q1 q2 q3; len_solve|].
-    eapply Tr_trans with (j := q4); [apply (T_blanks (wfp (WVal VObj)) w3); [apply bclosed_wfp|exact H3]|reflexivity|].
+    eapply Tr_trans with (j := q4); [apply (T_gaps (wfp (WVal VObj)) w3); [apply bclosed_wfp|exact H3]|reflexivity|].
     apply (Hx VObj).
   - rewrite <- !app_assoc. reflexivity.
   - subst q1 q2 q3 q4. cbn [pre_evs pre_stk app]. ev_fin.
@@ -1167,12 +1591,12 @@ Proof.
 Qed.
 
 (* ---- every well-formed value ---- *)
-Lemma V_all : forall v, Grammar.wf v = true -> no_exponent v = true -> Vprop v.
+Lemma V_all : forall v, wfg is_gap v = true -> no_exponent v = true -> Vprop v.
 Proof.
   induction v as [t|w|items IH|w|ms IH] using jv_ind2; intros Hw Hn.
   - apply V_tok; assumption.
   - apply V_arr0. exact Hw.
-  - rewrite wf_arr in Hw. apply andb_prop in Hw. destruct Hw as [Hlen Hw]. cbn [no_exponent] in Hn.
+  - rewrite wfg_arr in Hw. apply andb_prop in Hw. destruct Hw as [Hlen Hw]. cbn [no_exponent] in Hn.
     assert (HF : Forall item_ok items).
     { rewrite forallb_forall in Hw, Hn. rewrite Forall_forall in IH |- *. intros [[w1 x] w2] Hin.
       specialize (Hw _ Hin). specialize (Hn _ Hin). specialize (IH _ Hin). cbn in Hw, Hn, IH |- *.
@@ -1185,7 +1609,7 @@ Proof.
       intros s Hs. eapply Cfg_sub; [|exact Hs]. intros f <-. left. reflexivity.
     + rewrite render_arr. ev_fin.
   - apply V_obj0. exact Hw.
-  - rewrite wf_obj in Hw. apply andb_prop in Hw. destruct Hw as [Hlen Hw]. cbn [no_exponent] in Hn.
+  - rewrite wfg_obj in Hw. apply andb_prop in Hw. destruct Hw as [Hlen Hw]. cbn [no_exponent] in Hn.
     assert (HF : Forall mem_ok ms).
     { rewrite forallb_forall in Hw, Hn. rewrite Forall_forall in IH |- *. intros [[[[[w1 k] w2] w3] x] w4] Hin.
       specialize (Hw _ Hin). specialize (Hn _ Hin). specialize (IH _ Hin). cbn in Hw, Hn, IH |- *.
@@ -1229,33 +1653,63 @@ Qed.
 Lemma litdone_finished f : litdone f -> unfinished_step f = false.
 Proof. intros [-> | [-> | [-> | ->]]]; reflexivity. Qed.
 
-Theorem scan_plain_json : forall w1 v w2,
-  all_blank w1 = true -> Grammar.wf v = true -> all_blank w2 = true -> no_exponent v = true ->
+Lemma scan_closed_gen bs evs (Q : sc -> Prop) :
+  (forall s, Q s -> s_stk s = [] /\ unfinished_step (s_step s) = false) ->
+  Tr (Cfg (vs_fp VRoot) [] [] 0 false) 0 bs evs Q -> scan false bs = (evs, Done).
+Proof.
+  intros HQ H. destruct (H _ cfg_new None [] []) as [s' [pb' [Hq E1]]].
+  rewrite app_nil_r in E1. unfold scan. rewrite E1. cbn [run].
+  destruct (HQ s' Hq) as [Hs Hu]. rewrite Hs. cbn [length tail]. rewrite Hs, Hu.
+  rewrite app_nil_r, frev_rev, rev_involutive. reflexivity.
+Qed.
+Lemma GQ_closed fin (fp : st -> Prop) n s : (forall f, fp f -> unfinished_step f = false) ->
+  GQ fin fp [] n s -> s_stk s = [] /\ unfinished_step (s_step s) = false.
+Proof.
+  intros Hu [[f [pcs [cx [bnd [al [Hf [Hn ->]]]]]]]|[_ [g [_ [f [pcs [cx [bnd [al [Hf [Hn ->]]]]]]]]]]].
+  - split; [reflexivity|]. cbn [s_step]. apply Hu. exact Hf.
+  - split; [reflexivity|]. cbn [s_step]. destruct Hf as [-> | ->]; reflexivity.
+Qed.
+
+(* the scan of a JSON value whose gaps hold blanks and line comments; the last gap may end inside a
+   comment *)
+Theorem scan_json_gaps : forall w1 v w2,
+  is_gap w1 = true -> wfg is_gap v = true -> is_gap_end w2 = true -> no_exponent v = true ->
   scan false (w1 ++ render v ++ w2) = (text_events w1 v w2, Done).
 Proof.
   intros w1 v w2 H1 Hv H2 Hn. unfold text_events.
   assert (Hpre : Tr (Cfg (vs_fp VRoot) [] [] 0 false) 0 (w1 ++ render v)
                     (nls 0 w1 ++ open_events (len w1) v) (VDone (is_tok v) (len w1) [] 0)).
-  { eapply Tr_trans; [apply (T_blanks (wfp (WVal VRoot)) w1); [apply bclosed_wfp|exact H1]|reflexivity|].
+  { eapply Tr_trans; [apply (T_gaps (wfp (WVal VRoot)) w1); [apply bclosed_wfp|exact H1]|reflexivity|].
     rewrite N.add_0_l. exact (V_all v Hv Hn VRoot (len w1) [] 0%nat). }
   destruct w2 as [|c w2'].
-  - rewrite app_nil_r. cbn [nls]. rewrite app_nil_r.
+  - rewrite app_nil_r. rewrite nls_nil. rewrite app_nil_r.
     rewrite <- (open_close (len w1) v).
     destruct (is_tok v); cbn [VDone lit_end] in Hpre |- *.
     + rewrite (scan_open_lit _ _ _ _ _ litdone_finished Hpre). rewrite <- app_assoc. repeat f_equal. len_solve.
     + rewrite (scan_closed _ _ (eq EndValue) _ _ ltac:(intros f <-; reflexivity) Hpre). rewrite app_nil_r. reflexivity.
-  - destruct (all_blank_cons c w2' H2) as [Hc Hw'].
+  - assert (Hcl : bclosed (eq SEndTop)) by (apply bclosed_eq; [reflexivity|discriminate]).
+    set (q := len w1 + len (render v)).
+    destruct (T_gaps_gen true (eq SEndTop) [] 0 Hcl (length w2') w2' (le_n _) (N.succ q)) as [G1 G2].
     assert (Hall : Tr (Cfg (vs_fp VRoot) [] [] 0 false) 0 ((w1 ++ render v) ++ c :: w2')
                       ((nls 0 w1 ++ open_events (len w1) v) ++
-                       (lit_end (is_tok v) (len w1) (len w1 + len (render v) - 1) ++ nl1 (len w1 + len (render v)) c) ++
-                       nls (N.succ (len w1 + len (render v))) w2')
-                      (Cfg (eq SEndTop) [] [] 0 false)).
-    { eapply Tr_trans; [exact Hpre|reflexivity|].
-      eapply Tr_cons; [apply T_root_blank; exact Hc| |].
-      - apply (T_blanks (eq SEndTop) w2'); [apply bclosed_eq; [reflexivity|discriminate]|exact Hw'].
-      - rewrite N.add_0_l, len_app. reflexivity. }
-    rewrite <- app_assoc in Hall. rewrite (scan_closed _ _ (eq SEndTop) _ _ ltac:(intros f <-; reflexivity) Hall).
-    rewrite <- (open_close (len w1) v), nls_cons. f_equal. ev_fin.
+                       lit_end (is_tok v) (len w1) (q - 1) ++ nls q (c :: w2'))
+                      (GQ true (eq SEndTop) [] 0)).
+    { eapply Tr_trans; [exact Hpre|reflexivity|]. rewrite N.add_0_l, len_app. fold q.
+      destruct (gap_cons_cases true c w2' H2) as [[Hc [H35 Hw']]|[-> Hw']].
+      - rewrite (nls_cons q c w2' H35).
+        eapply Tr_cons; [apply T_root_blank; exact Hc|apply (G1 Hw')|]. rewrite <- app_assoc. reflexivity.
+      - rewrite nls_hash. eapply Tr_cons; [apply T_root_hash|apply (G2 GHash SEndTop ltac:(discriminate) eq_refl Hw')|reflexivity]. }
+    rewrite <- app_assoc in Hall.
+    rewrite (scan_closed_gen _ _ _ (fun s => GQ_closed true (eq SEndTop) 0 s ltac:(intros f <-; reflexivity)) Hall).
+    rewrite <- (open_close (len w1) v). subst q. f_equal. ev_fin.
+Qed.
+
+Theorem scan_plain_json : forall w1 v w2,
+  all_blank w1 = true -> Grammar.wf v = true -> all_blank w2 = true -> no_exponent v = true ->
+  scan false (w1 ++ render v ++ w2) = (text_events w1 v w2, Done).
+Proof.
+  intros w1 v w2 H1 Hv H2 Hn. apply scan_json_gaps; [apply all_blank_gap; exact H1| |apply all_blank_gap; exact H2|exact Hn].
+  apply (wfg_mono all_blank is_gap (all_blank_gap false)). rewrite wfg_blank. exact Hv.
 Qed.
 
 (* ================================================================== *)
@@ -1328,13 +1782,30 @@ Lemma L_newline stk root q : LTr (LS stk root) [E NewLine q q] (LS stk root).
 Proof.
   apply LTr_one. intros st [cnt ->]. eexists. split; [eexists; reflexivity|]. reflexivity.
 Qed.
-Lemma L_nls stk root w : forall q, LTr (LS stk root) (nls q w) (LS stk root).
+Lemma L_gev stk root : forall m w, (length w <= m)%nat -> forall g q,
+  LTr (LS stk root) (gev g q w) (LS stk root).
 Proof.
-  induction w as [|c w IH]; intros q; cbn [nls]; [apply LTr_nil; auto|].
-  destruct (is_nl c).
-  - cbn [app]. eapply LTr_cons; [apply L_newline|apply IH].
-  - apply IH.
+  induction m as [|m IH]; intros w Hm g q; (destruct w as [|c w]; [apply LTr_nil; auto|cbn [length] in Hm; try lia]).
+  assert (Iw : forall g' q', LTr (LS stk root) (gev g' q' w) (LS stk root)) by (intros; apply IH; lia).
+  assert (Hblk : LTr (LS stk root)
+            match w with
+            | x :: y :: r' => if (ch x 35 && ch y 35)%bool then gev GOut (q + 3) r' else gev GBlock (N.succ q) w
+            | _ => []
+            end (LS stk root)).
+  { destruct w as [|x [|y r']]; try (apply LTr_nil; auto).
+    destruct (ch x 35 && ch y 35)%bool; [apply IH; cbn [length] in Hm; lia|apply Iw]. }
+  assert (Hnl2 : LTr (LS stk root) ([E NewLine (q - 1) (q - 1); E NewLine q q] ++ gev GOut (N.succ q) w) (LS stk root)).
+  { cbn [app]. eapply LTr_cons; [apply L_newline|]. eapply LTr_cons; [apply L_newline|apply Iw]. }
+  cbn [gev]. destruct g.
+  - destruct (ch c 35); [apply Iw|]. destruct (is_nl c); [|apply Iw].
+    cbn [app]. eapply LTr_cons; [apply L_newline|apply Iw].
+  - destruct (ch c 35); [apply Iw|]. destruct (is_nl c); [exact Hnl2|apply Iw].
+  - destruct (is_nl c); [exact Hnl2|apply Iw].
+  - destruct (ch c 35); [exact Hblk|apply LTr_nil; auto].
+  - destruct (ch c 35); [exact Hblk|apply Iw].
 Qed.
+Lemma L_nls stk root w : forall q, LTr (LS stk root) (nls q w) (LS stk root).
+Proof. intros q. apply (L_gev stk root (length w)). apply le_n. Qed.
 
 (* ---- where a piece of the text lies ---- *)
 Definition At (p : N) (bs : bytes) : Prop :=
@@ -1795,12 +2266,12 @@ Proof.
 Qed.
 
 (* ---- every value ---- *)
-Lemma B_all : forall v, Grammar.wf v = true -> no_exponent v = true -> distinct_keys v = true -> Bprop v.
+Lemma B_all gp : forall v, wfg gp v = true -> no_exponent v = true -> distinct_keys v = true -> Bprop v.
 Proof.
   induction v as [t|w|items IH|w|ms IH] using jv_ind2; intros Hw Hn Hd.
   - apply B_tok; assumption.
   - apply B_arr0.
-  - rewrite wf_arr in Hw. apply andb_prop in Hw. destruct Hw as [Hlen Hw]. cbn [no_exponent distinct_keys] in Hn, Hd.
+  - rewrite wfg_arr in Hw. apply andb_prop in Hw. destruct Hw as [Hlen Hw]. cbn [no_exponent distinct_keys] in Hn, Hd.
     assert (HF : Forall (fun i => Bprop (snd (fst i))) items).
     { rewrite forallb_forall in Hw, Hn, Hd. rewrite Forall_forall in IH |- *. intros [[w1 x] w2] Hin.
       specialize (Hw _ Hin). specialize (Hn _ Hin). specialize (Hd _ Hin). specialize (IH _ Hin).
@@ -1815,7 +2286,7 @@ Proof.
     rewrite <- (attach_root_open _ stk stk' root Ho).
     apply L_close. left. split; reflexivity.
   - apply B_obj0.
-  - rewrite wf_obj in Hw. apply andb_prop in Hw. destruct Hw as [Hlen Hw]. cbn [no_exponent distinct_keys] in Hn, Hd.
+  - rewrite wfg_obj in Hw. apply andb_prop in Hw. destruct Hw as [Hlen Hw]. cbn [no_exponent distinct_keys] in Hn, Hd.
     apply andb_prop in Hd. destruct Hd as [Hfresh Hd].
     assert (HF : Forall (fun m => Bprop (snd (fst m))) ms /\
                  Forall (fun m => let '(_, k, _, _, _, _) := m in is_string_token k = true) ms).
@@ -1916,14 +2387,14 @@ Qed.
 Lemma tok_nonempty t : Grammar.wf (JTok t) = true -> t <> [].
 Proof. intros H ->. discriminate H. Qed.
 
-Lemma C_node : forall x, Grammar.wf x = true -> Cprop to_node mirror x.
+Lemma C_node gp : forall x, wfg gp x = true -> Cprop to_node mirror x.
 Proof.
   induction x as [t|w|items IH|w|ms IH] using jv_ind2; intros Hw p Ha.
   - cbn [tnode_of to_node map frev rev_append all_some nd0 nd_kind nd_lb nd_le mirror render] in Ha |- *.
     change (frev (@nil (option node))) with (@nil (option node)). cbn [all_some].
     rewrite (slice_at S p t Ha (tok_nonempty t Hw)). reflexivity.
   - reflexivity.
-  - rewrite wf_arr in Hw. apply andb_prop in Hw. destruct Hw as [_ Hw]. rewrite render_arr in Ha.
+  - rewrite wfg_arr in Hw. apply andb_prop in Hw. destruct Hw as [_ Hw]. rewrite render_arr in Ha.
     assert (HF : Forall (fun i => Cprop to_node mirror (snd (fst i))) items).
     { rewrite forallb_forall in Hw. rewrite Forall_forall in IH |- *. intros [[w1 x] w2] Hin.
       specialize (Hw _ Hin). specialize (IH _ Hin). cbn in Hw, IH |- *.
@@ -1933,7 +2404,7 @@ Proof.
     + reflexivity.
     + apply parts_at_join. apply (At_part S p _ [x5b] (join [x2c] (map ritem items)) [x5d] _ Ha); reflexivity.
   - reflexivity.
-  - rewrite wf_obj in Hw. apply andb_prop in Hw. destruct Hw as [_ Hw]. rewrite render_obj in Ha.
+  - rewrite wfg_obj in Hw. apply andb_prop in Hw. destruct Hw as [_ Hw]. rewrite render_obj in Ha.
     assert (HF : Forall (fun i => Cprop to_node mirror (snd (fst i))) ms).
     { rewrite forallb_forall in Hw. rewrite Forall_forall in IH |- *. intros [[[[[w1 k] w2] w3] x] w4] Hin.
       specialize (Hw _ Hin). specialize (IH _ Hin). cbn in Hw, IH |- *.
@@ -1957,6 +2428,26 @@ Lemma At_text w1 v w2 : At (src_of (w1 ++ render v ++ w2)) (len w1) (render v).
 Proof. split; [reflexivity|]. exists w1, w2. split; reflexivity. Qed.
 
 (* the state of the loader at the end of the event stream of a plain JSON text *)
+Lemma wf_wfg_gap v : Grammar.wf v = true -> wfg is_gap v = true.
+Proof. intros H. apply (wfg_mono all_blank is_gap (all_blank_gap false)). rewrite wfg_blank. exact H. Qed.
+
+Lemma load_state_gaps env w1 v w2 :
+  is_gap w1 = true -> wfg is_gap v = true -> is_gap_end w2 = true ->
+  no_exponent v = true -> distinct_keys v = true ->
+  exists cnt,
+    load_state env (w1 ++ render v ++ w2) =
+    (Ok (mklst MDefault cnt (Some (tnode_of (len w1) v)) [] None), Done, src_of (w1 ++ render v ++ w2)).
+Proof.
+  intros H1 Hv H2 Hn Hd. unfold load_state. rewrite (scan_json_gaps w1 v w2 H1 Hv H2 Hn).
+  fold (src_of (w1 ++ render v ++ w2)). set (S := src_of (w1 ++ render v ++ w2)).
+  assert (HT : LTr S env (LS [] None) (text_events w1 v w2) (LS [] (Some (tnode_of (len w1) v)))).
+  { unfold text_events.
+    eapply LTr_trans; [apply L_nls|].
+    eapply LTr_trans; [|apply L_nls].
+    apply (B_all S env is_gap v Hv Hn Hd (len w1) [] [] None (At_text w1 v w2) eq_refl). }
+  destruct (HT l0) as [st' [[cnt ->] K]]; [exists 0; reflexivity|].
+  specialize (K []). rewrite app_nil_r in K. exists cnt. rewrite K. reflexivity.
+Qed.
 Lemma load_state_plain env w1 v w2 :
   all_blank w1 = true -> Grammar.wf v = true -> all_blank w2 = true ->
   no_exponent v = true -> distinct_keys v = true ->
@@ -1964,15 +2455,23 @@ Lemma load_state_plain env w1 v w2 :
     load_state env (w1 ++ render v ++ w2) =
     (Ok (mklst MDefault cnt (Some (tnode_of (len w1) v)) [] None), Done, src_of (w1 ++ render v ++ w2)).
 Proof.
-  intros H1 Hv H2 Hn Hd. unfold load_state. rewrite (scan_plain_json w1 v w2 H1 Hv H2 Hn).
-  fold (src_of (w1 ++ render v ++ w2)). set (S := src_of (w1 ++ render v ++ w2)).
-  assert (HT : LTr S env (LS [] None) (text_events w1 v w2) (LS [] (Some (tnode_of (len w1) v)))).
-  { unfold text_events.
-    eapply LTr_trans; [apply L_nls|].
-    eapply LTr_trans; [|apply L_nls].
-    apply (B_all S env v Hv Hn Hd (len w1) [] [] None (At_text w1 v w2) eq_refl). }
-  destruct (HT l0) as [st' [[cnt ->] K]]; [exists 0; reflexivity|].
-  specialize (K []). rewrite app_nil_r in K. exists cnt. rewrite K. reflexivity.
+  intros H1 Hv H2 Hn Hd. apply load_state_gaps;
+    [exact (all_blank_gap false w1 H1)|apply wf_wfg_gap; exact Hv|exact (all_blank_gap true w2 H2)|exact Hn|exact Hd].
+Qed.
+
+(* C13 (schema half): line comments in the gaps of a JSON value are transparent: the loader builds the
+   tree of the value, whatever stands in the comments.  [is_gap]: blanks and line comments ('#', a body
+   without line break that does not begin with '#', the line break: LF, CR or CRLF); the last gap may
+   end inside a comment.  No condition on the tokens: '#', '/', '@' may occur in strings. *)
+Theorem load_mirrors_json_with_comments : forall w1 v w2,
+  is_gap w1 = true -> wfg is_gap v = true -> is_gap_end w2 = true ->
+  no_exponent v = true -> distinct_keys v = true ->
+  load (w1 ++ render v ++ w2) = LTree (Some (mirror v)).
+Proof.
+  intros w1 v w2 H1 Hv H2 Hn Hd. unfold load, load_with.
+  destruct (load_state_gaps env0 w1 v w2 H1 Hv H2 Hn Hd) as [cnt ->].
+  unfold finish, final_root. cbn [l_stack l_root].
+  rewrite (C_node _ is_gap v Hv (len w1) (At_text w1 v w2)). reflexivity.
 Qed.
 
 (* T1, in its strongest form: no condition on '/', '#', '@' is needed *)
@@ -1981,10 +2480,8 @@ Theorem load_mirrors_json : forall w1 v w2,
   no_exponent v = true -> distinct_keys v = true ->
   load (w1 ++ render v ++ w2) = LTree (Some (mirror v)).
 Proof.
-  intros w1 v w2 H1 Hv H2 Hn Hd. unfold load, load_with.
-  destruct (load_state_plain env0 w1 v w2 H1 Hv H2 Hn Hd) as [cnt ->].
-  unfold finish, final_root. cbn [l_stack l_root].
-  rewrite (C_node _ v Hv (len w1) (At_text w1 v w2)). reflexivity.
+  intros w1 v w2 H1 Hv H2 Hn Hd. apply load_mirrors_json_with_comments;
+    [exact (all_blank_gap false w1 H1)|apply wf_wfg_gap; exact Hv|exact (all_blank_gap true w2 H2)|exact Hn|exact Hd].
 Qed.
 
 (* T1 as asked, with the one hypothesis that had to be added: number tokens carry no exponent *)
@@ -1997,7 +2494,7 @@ Theorem load_mirrors_plain_json : forall w1 v w2,
 Proof. intros w1 v w2 H1 Hv H2 _ Hn Hd. apply load_mirrors_json; assumption. Qed.
 
 (* ---- T2: the AST view ---- *)
-Lemma C_ast S : forall x, Grammar.wf x = true -> no_exponent x = true -> Cprop S to_ast (ast_mirror []) x.
+Lemma C_ast S gp : forall x, wfg gp x = true -> no_exponent x = true -> Cprop S to_ast (ast_mirror []) x.
 Proof.
   induction x as [t|w|items IH|w|ms IH] using jv_ind2; intros Hw Hn p Ha.
   - cbn [tnode_of render] in Ha |- *. unfold nd0. cbn [to_ast map nd_cs ast_rules ast_mirror].
@@ -2006,7 +2503,7 @@ Proof.
     unfold ast_schema_type. cbn [nd_cs nd_jt nd_note chas cget type_bytes]. unfold annot_of. cbn [nd_cs nd_note written_rules].
     rewrite (tok_jt_kind t Hw Hn). reflexivity.
   - reflexivity.
-  - rewrite wf_arr in Hw. apply andb_prop in Hw. destruct Hw as [_ Hw]. rewrite render_arr in Ha.
+  - rewrite wfg_arr in Hw. apply andb_prop in Hw. destruct Hw as [_ Hw]. rewrite render_arr in Ha.
     cbn [no_exponent] in Hn.
     assert (HF : Forall (fun i => Cprop S to_ast (ast_mirror []) (snd (fst i))) items).
     { rewrite forallb_forall in Hw, Hn. rewrite Forall_forall in IH |- *. intros [[w1 x] w2] Hin.
@@ -2017,7 +2514,7 @@ Proof.
     + reflexivity.
     + apply parts_at_join. apply (At_part S p _ [x5b] (join [x2c] (map ritem items)) [x5d] _ Ha); reflexivity.
   - reflexivity.
-  - rewrite wf_obj in Hw. apply andb_prop in Hw. destruct Hw as [_ Hw]. rewrite render_obj in Ha.
+  - rewrite wfg_obj in Hw. apply andb_prop in Hw. destruct Hw as [_ Hw]. rewrite render_obj in Ha.
     cbn [no_exponent] in Hn.
     assert (HF : Forall (fun i => Cprop S to_ast (ast_mirror []) (snd (fst i))) ms).
     { rewrite forallb_forall in Hw, Hn. rewrite Forall_forall in IH |- *. intros [[[[[w1 k] w2] w3] x] w4] Hin.
@@ -2032,15 +2529,23 @@ Proof.
     + apply parts_at_join. apply (At_part S p _ [x7b] (join [x2c] (map rmem ms)) [x7d] _ Ha); reflexivity.
 Qed.
 
+Theorem ast_mirrors_json_with_comments : forall w1 v w2,
+  is_gap w1 = true -> wfg is_gap v = true -> is_gap_end w2 = true ->
+  no_exponent v = true -> distinct_keys v = true ->
+  finish to_ast (load_state env0 (w1 ++ render v ++ w2)) = (Some (Some (ast_mirror [] v)), LTree None).
+Proof.
+  intros w1 v w2 H1 Hv H2 Hn Hd.
+  destruct (load_state_gaps env0 w1 v w2 H1 Hv H2 Hn Hd) as [cnt ->].
+  unfold finish, final_root. cbn [l_stack l_root].
+  rewrite (C_ast _ is_gap v Hv Hn (len w1) (At_text w1 v w2)). reflexivity.
+Qed.
 Theorem ast_mirrors_json : forall w1 v w2,
   all_blank w1 = true -> Grammar.wf v = true -> all_blank w2 = true ->
   no_exponent v = true -> distinct_keys v = true ->
   finish to_ast (load_state env0 (w1 ++ render v ++ w2)) = (Some (Some (ast_mirror [] v)), LTree None).
 Proof.
-  intros w1 v w2 H1 Hv H2 Hn Hd.
-  destruct (load_state_plain env0 w1 v w2 H1 Hv H2 Hn Hd) as [cnt ->].
-  unfold finish, final_root. cbn [l_stack l_root].
-  rewrite (C_ast _ v Hv Hn (len w1) (At_text w1 v w2)). reflexivity.
+  intros w1 v w2 H1 Hv H2 Hn Hd. apply ast_mirrors_json_with_comments;
+    [exact (all_blank_gap false w1 H1)|apply wf_wfg_gap; exact Hv|exact (all_blank_gap true w2 H2)|exact Hn|exact Hd].
 Qed.
 Theorem ast_mirrors_plain_json : forall w1 v w2,
   all_blank w1 = true -> Grammar.wf v = true -> all_blank w2 = true ->
@@ -2318,29 +2823,29 @@ Proof.
       * rewrite <- !app_assoc. reflexivity.
 Qed.
 
-Lemma D_all : forall v, Grammar.wf v = true -> no_exponent v = true -> Dprop v.
+Lemma D_all gp : forall v, wfg gp v = true -> no_exponent v = true -> Dprop v.
 Proof.
   induction v as [t|w|items IH|w|ms IH] using jv_ind2; intros Hw Hn p stk stk' root d Ha Ho Hd;
     try discriminate Hd.
-  - rewrite wf_arr in Hw. apply andb_prop in Hw. destruct Hw as [Hlen Hw]. cbn [no_exponent] in Hn.
+  - rewrite wfg_arr in Hw. apply andb_prop in Hw. destruct Hw as [Hlen Hw]. cbn [no_exponent] in Hn.
     assert (HF : Forall (fun i => DB (snd (fst i))) items).
     { rewrite forallb_forall in Hw, Hn. rewrite Forall_forall in IH |- *. intros [[w1 x] w2] Hin.
       specialize (Hw _ Hin). specialize (Hn _ Hin). specialize (IH _ Hin). cbn in Hw, Hn, IH |- *.
       apply andb_prop in Hw. destruct Hw as [Hw H2]. apply andb_prop in Hw. destruct Hw as [H1 Hx].
-      split; [auto|]. intros q Hq. apply B_all; [exact Hx|exact Hn|apply (dup_none_distinct x q Hq)]. }
+      split; [auto|]. intros q Hq. apply (B_all S env gp); [exact Hx|exact Hn|apply (dup_none_distinct x q Hq)]. }
     rewrite render_arr in Ha. cbn [events_of dup_pos] in Hd |- *.
     eapply LFail_after; [apply (L_open S env ArrayBegin KArr JArray); [reflexivity|exact Ho]|].
     apply LFail_before.
     apply (D_items p stk' _ items (p + 1) [] d HF); [|exact Hd].
     apply parts_at_join. apply (At_part S p _ [x5b] (join [x2c] (map ritem items)) [x5d] _ Ha); reflexivity.
-  - rewrite wf_obj in Hw. apply andb_prop in Hw. destruct Hw as [Hlen Hw]. cbn [no_exponent] in Hn.
+  - rewrite wfg_obj in Hw. apply andb_prop in Hw. destruct Hw as [Hlen Hw]. cbn [no_exponent] in Hn.
     assert (HF : Forall (fun m => DB (snd (fst m))) ms /\
                  Forall (fun m => let '(_, k, _, _, _, _) := m in is_string_token k = true) ms).
     { rewrite forallb_forall in Hw, Hn. rewrite !Forall_forall in *. split; intros [[[[[w1 k] w2] w3] x] w4] Hin;
       specialize (Hw _ Hin); specialize (Hn _ Hin); specialize (IH _ Hin);
       cbn in Hw, Hn, IH |- *;
       repeat match type of Hw with (_ && _)%bool = true => apply andb_prop in Hw; destruct Hw as [Hw ?] end; auto.
-      split; [auto|]. intros q Hq. apply B_all; [assumption|exact Hn|apply (dup_none_distinct x q Hq)]. }
+      split; [auto|]. intros q Hq. apply (B_all S env gp); [assumption|exact Hn|apply (dup_none_distinct x q Hq)]. }
     destruct HF as [HF HK].
     rewrite render_obj in Ha. cbn [events_of dup_pos] in Hd |- *.
     eapply LFail_after; [apply (L_open S env ObjectBegin KObj JObject); [reflexivity|exact Ho]|].
@@ -2360,7 +2865,7 @@ Proof.
   fold (src_of (w1 ++ render v ++ w2)). set (S := src_of (w1 ++ render v ++ w2)).
   assert (HT : LFail S env0 (LS [] None) (text_events w1 v w2) d).
   { unfold text_events. eapply LFail_after; [apply L_nls|]. apply LFail_before.
-    apply (D_all S env0 v Hv Hn (len w1) [] [] None d (At_text w1 v w2) eq_refl Hd). }
+    apply (D_all S env0 all_blank v ltac:(rewrite wfg_blank; exact Hv) Hn (len w1) [] [] None d (At_text w1 v w2) eq_refl Hd). }
   specialize (HT l0 (ex_intro _ 0 eq_refl) []). rewrite app_nil_r in HT. rewrite HT. reflexivity.
 Qed.
 
